@@ -64,6 +64,28 @@ func VH_C06_Progress() {
 			return
 		}
 	}
+	if len(rs) != len(up) || len(rc) != len(down) {
+		// A Recv failed, i.e. the connection was closed. The statement allows
+		// that only with keep-alive on (a ping or its answer can fall into the
+		// fault prefix), and then the calls of both endpoints must fail
+		// within a bounded time and what was delivered is still a prefix.
+		vReach("closed")
+		faulty := p.c2s.faulty+p.s2c.faulty > 0
+		vAssert(keepalive, "connection closed although keep-alive is off")
+		vAssert(faulty, "connection closed by keep-alive although no packet was lost or duplicated")
+		vAssert(vIsPrefix(rs, up) && vIsPrefix(rc, down), "delivered messages are not a prefix of the sent ones")
+		bound := time.After(60 * time.Second)
+		for _, q := range []chan struct{}{p.cli.quit, p.srv.quit} {
+			select {
+			case <-q:
+			case <-bound:
+				vAssert(false, "one endpoint closed the connection, the other one is still open a minute later")
+			}
+		}
+		vAssert(p.cli.Send([]byte{1}) != nil && p.srv.Send([]byte{1}) != nil, "Send succeeds on a closed connection")
+		p.shutdown()
+		return
+	}
 	vReach("delivered")
 	vAssert(len(rs) == len(up) && vIsPrefix(rs, up), "server did not receive the client's messages")
 	vAssert(len(rc) == len(down) && vIsPrefix(rc, down), "client did not receive the server's messages")
